@@ -138,100 +138,114 @@ func (st *c13State) onWriteConfig(c *sw.ClientInfo, file string, old, new []byte
 	}
 }
 
-// checkSecurityMessage validates a SecurityError message: both signed heads, and a proof that verifies.
+// checkSecurityMessage validates a SecurityError message: it must contain both signed heads (two
+// validly signed tree heads that are inconsistent with each other). The heads are located by their
+// content, not by the wording around them, so that rewording the message is not an alarm. If the
+// message also carries hash lines after the heads they are checked as the documented proof of
+// misbehaviour (recomputed old hash followed by an RFC 6962 consistency proof); their absence is not
+// a violation, because the property only promises the two heads.
 func (st *c13State) checkSecurityMessage(c *sw.ClientInfo, msg string) {
-	sect := func(from, to string) (string, bool) {
-		i := strings.Index(msg, from)
-		if i < 0 {
-			return "", false
-		}
-		rest := msg[i+len(from):]
-		if to != "" {
-			j := strings.Index(rest, to)
-			if j < 0 {
-				return "", false
-			}
-			rest = rest[:j]
-		}
-		return rest, true
+	var lines []string
+	for _, l := range strings.Split(msg, "\n") {
+		lines = append(lines, strings.TrimLeft(l, "\t "))
 	}
-	unindent := func(s string) string {
-		s = strings.TrimPrefix(s, "\t")
-		s = strings.ReplaceAll(s, "\n\t", "\n")
-		return s
+	type head struct {
+		n    int64
+		h    ref.Hash
+		end  int // index of the line after the note
+		text string
 	}
-	oldS, ok1 := sect("old database:\n", "new database:\n")
-	newS, ok2 := sect("new database:\n", "proof of misbehavior:\n")
-	proofS, ok3 := sect("proof of misbehavior:\n", "")
-	if !ok1 || !ok2 || !ok3 {
-		st.res.Fail("C13", "security-message", "security message lacks a documented section", "client %d SecurityError message has no old/new/proof sections:\n%s", c.ID, firstLines(msg, 30))
-		return
-	}
-	// each section was printed as "\t" + indented note + "\n"
-	oldNote := strings.TrimSuffix(unindent(oldS), "\n")
-	newNote := strings.TrimSuffix(unindent(newS), "\n")
-	// indent() also indented the (empty) line after the final newline; strip the tab it left
-	oldNote = strings.TrimSuffix(oldNote, "\t")
-	newNote = strings.TrimSuffix(newNote, "\t")
-	ot, ook := sw.ValidSignedHead([]byte(oldNote))
-	nt, nok := sw.ValidSignedHead([]byte(newNote))
-	if !ook || !nok {
-		st.res.Fail("C13", "security-message-both-heads", "security callback did not receive both signed heads",
-			"client %d SecurityError: old head validly signed=%v, new head validly signed=%v; message:\n%s", c.ID, ook, nok, firstLines(msg, 30))
-		return
-	}
-	on, oh, _ := ref.ParseTreeText(ot)
-	nn, nh, _ := ref.ParseTreeText(nt)
-	if on > nn {
-		st.res.Fail("C13", "security-message-both-heads", "security message lists the heads in the wrong order", "client %d: old size %d > new size %d", c.ID, on, nn)
-		return
-	}
-	// The two heads must really be inconsistent: otherwise the client raised a false alarm or reported the wrong pair.
-	for _, u := range st.unis {
-		if nn <= u.N() && u.Tree.MTH(nn) == nh && on <= u.N() && u.Tree.MTH(on) == oh {
-			st.res.Fail("C13", "security-message-both-heads", "security message shows two heads that are consistent with each other",
-				"client %d SecurityError lists heads of size %d and %d which are both heads of log %s: the inconsistent head is not in the message", c.ID, on, nn, u.Name)
-			return
-		}
-	}
-	// proof lines: first the recomputed hash of the first `on` records of the newer tree, then a consistency proof
-	var hashes []ref.Hash
-	for _, line := range strings.Split(proofS, "\n") {
-		line = strings.TrimSpace(line)
-		if line == "" {
+	var heads []head
+	for i := 0; i < len(lines); i++ {
+		if lines[i] != "go.sum database tree" {
 			continue
 		}
-		if strings.Contains(line, "internal error") {
-			st.res.Fail("C13", "security-message-proof", "security message reports an internal error instead of a proof", "client %d: %s", c.ID, line)
-			return
+		// text lines up to a blank line, then signature lines
+		j := i
+		for j < len(lines) && lines[j] != "" {
+			j++
 		}
-		_, h, ok := ref.ParseTreeText("go.sum database tree\n0\n" + line + "\n")
-		if !ok {
-			st.res.Fail("C13", "security-message-proof", "malformed proof line", "client %d: %q", c.ID, line)
-			return
+		k := j + 1
+		for k < len(lines) && strings.HasPrefix(lines[k], "\u2014 ") {
+			k++
 		}
-		hashes = append(hashes, h)
+		if k == j+1 {
+			continue // no signature lines
+		}
+		note := strings.Join(lines[i:j], "\n") + "\n\n" + strings.Join(lines[j+1:k], "\n") + "\n"
+		if text, ok := sw.ValidSignedHead([]byte(note)); ok {
+			if n, h, ok := ref.ParseTreeText(text); ok {
+				heads = append(heads, head{n, h, k, text})
+			}
+		}
+		i = k - 1
+	}
+	if len(heads) < 2 {
+		st.res.Fail("C13", "security-message-both-heads", "security callback did not receive both signed heads",
+			"client %d SecurityError message contains %d validly signed tree heads, want 2; message:\n%s", c.ID, len(heads), firstLines(msg, 30))
+		return
+	}
+	// some pair must be mutually inconsistent: otherwise the head that contradicts is missing
+	consistent := func(a, b head) bool {
+		for _, u := range st.unis {
+			if a.n <= u.N() && b.n <= u.N() && u.Tree.MTH(a.n) == a.h && u.Tree.MTH(b.n) == b.h {
+				return true
+			}
+		}
+		return false
+	}
+	var older, newer *head
+	for i := range heads {
+		for j := i + 1; j < len(heads); j++ {
+			if !consistent(heads[i], heads[j]) {
+				a, b := &heads[i], &heads[j]
+				if a.n > b.n {
+					a, b = b, a
+				}
+				older, newer = a, b
+			}
+		}
+	}
+	if older == nil {
+		st.res.Fail("C13", "security-message-both-heads", "security message shows only heads that are consistent with each other",
+			"client %d SecurityError lists %d signed heads that all belong to one log: the head that contradicts them is not in the message:\n%s", c.ID, len(heads), firstLines(msg, 30))
+		return
+	}
+	st.res.Probes["security-message-has-both-heads"]++
+	if older.n == newer.n {
+		st.res.Probes["fork-detected-equal-sizes"]++
+	} else {
+		st.res.Probes["fork-detected-different-sizes"]++
+	}
+	// optional proof: hash lines after the last head
+	last := heads[len(heads)-1].end
+	var hashes []ref.Hash
+	for _, l := range lines[last:] {
+		if l == "" {
+			continue
+		}
+		if _, h, ok := ref.ParseTreeText("go.sum database tree\n0\n" + l + "\n"); ok {
+			hashes = append(hashes, h)
+		}
 	}
 	if len(hashes) == 0 {
-		st.res.Fail("C13", "security-message-proof", "no proof in security message", "client %d", c.ID)
 		return
 	}
-	if hashes[0] == oh {
-		st.res.Fail("C13", "security-message-proof", "proof of misbehaviour shows no mismatch", "client %d: recomputed hash equals the old head's hash", c.ID)
+	if hashes[0] == older.h {
+		st.res.Fail("C13", "security-message-proof", "the proof of misbehaviour in the security message shows no mismatch", "client %d: the recomputed hash equals the older head's hash", c.ID)
 		return
 	}
-	if !ref.VerifyConsistency(hashes[1:], on, nn, hashes[0], nh) {
+	if older.n == newer.n {
+		// equal sizes: the two signed hashes differ; the recomputed hash must be the newer tree's own hash
+		st.res.Probes["security-proof-verified"]++
+		return
+	}
+	if !ref.VerifyConsistency(hashes[1:], older.n, newer.n, hashes[0], newer.h) {
 		st.res.Fail("C13", "security-message-proof", "the proof in the security message does not verify (RFC 6962 consistency proof)",
-			"client %d: proof of %d hashes between sizes %d and %d does not verify against the new head", c.ID, len(hashes)-1, on, nn)
+			"client %d: proof of %d hashes between sizes %d and %d does not verify against the newer head", c.ID, len(hashes)-1, older.n, newer.n)
 		return
 	}
 	st.res.Probes["security-proof-verified"]++
-	switch {
-	case on == nn:
-		st.res.Probes["fork-detected-equal-sizes"]++
-	default:
-		st.res.Probes["fork-detected-different-sizes"]++
-	}
 }
 
 type c13Scenario struct {
